@@ -147,6 +147,11 @@ func cmdCheck(eng *Engine, args []string) int {
 			units = append(units, u)
 		}
 	}
+	for _, u := range eng.symUnits() {
+		if hasProp(u.Sym.Props, id) {
+			units = append(units, u)
+		}
+	}
 	only := func(ob *Obligation) bool { return ob.Cover || hasProp(ob.Props, id) }
 	var wg sync.WaitGroup
 	sem := make(chan struct{}, 16)
@@ -156,7 +161,11 @@ func cmdCheck(eng *Engine, args []string) int {
 		go func(u *Unit) {
 			defer wg.Done()
 			defer func() { <-sem }()
-			eng.translate(u)
+			if u.Sym != nil {
+				eng.translateSym(u)
+			} else {
+				eng.translate(u)
+			}
 			if u.Unsupp == "" && u.SpecFail == "" {
 				solveUnit(u, cfg, only)
 			}
@@ -268,7 +277,7 @@ func cmdCheck(eng *Engine, args []string) int {
 				body += "query: " + qp + "\n"
 			}
 			replayed := false
-			if ob.Result == "sat" && ob.Model != "" {
+			if u.FType != nil || (ob.Result == "sat" && ob.Model != "") {
 				if rep := tryReplay(eng, u, ob, verifDir); rep != "" {
 					body += "\nreplay on the real code:\n" + rep
 					replayed = strings.Contains(rep, "REPRODUCED")
